@@ -562,16 +562,18 @@ def opEnc2 (args : List String) (impl : String) : Verdict :=
         [encodeRangesValidated hf .sync d st q, encodeRanges hf .sync d st q,
          encodeRangesValidated hf .fsm d st q, encodeRanges hf .fsm d st q]
       let sameS := String.join (((encs q1) ++ (encs q2)).map fun r => bool01 (r.terminal == .ok && r.out == e1))
-      let m := s!"{dig e1} {dig e2} {decEndStr run.terminal} {decEndStr run2.terminal} {sameS}"
+      let run3 := decodeAll hf .sync st.root tree q1 e2
+      let m := s!"{dig e1} {dig e2} {decEndStr run.terminal} {decEndStr run2.terminal} {sameS} {decEndStr run3.terminal}"
       let same := (List.range (Spec.nChunks d.length)).all fun c => Spec.selected d.length q1 c == Spec.selected d.length q2 c
       let sf : Option String :=
         if !same then none else
         match impl.splitOn " " with
-        | [a, b', t, t2, sm] =>
+        | [a, b', t, t2, sm, t3] =>
           if a != b' then some "equivalent queries encode differently"
           else if sm != "11111111" then some s!"equivalent queries: the eight encodings (sync/fsm x validating/plain x q1/q2) are not all equal: {sm}"
           else if t != "Done" then some s!"cross decode (sync, q1 on the encoding of q2): {t}"
           else if t2 != "Done" then some s!"cross decode (fsm, q2 on the encoding of q1): {t2}"
+          else if t3 != "Done" then some s!"cross decode (sync decoder with a caller supplied buffer, q1 on the encoding of q2): {t3}"
           else none
         | _ => some "malformed"
       { model := m, specFail := sf, nontrivial := same && !e1.isEmpty }
